@@ -75,13 +75,133 @@ def check(run, prog):
     # results must not depend on when a deferred callable runs, nor on earlier calls (shared mutable defaults)
     from .. import structural
     structural.report(ck, prog, "R4", [f for f in prog.all_functions if f.module in SCOPE and f.kind not in ("nested", "lambda")], "pulsarbat (laziness scope)")
+    fft_chunk_discipline(ck, prog, "R2")
     run.extra["decided_by"] = ck.how
+
+
+DASK_CREATORS_1D = {"arange", "linspace"}
+DASK_CREATORS_ND = {"zeros", "ones", "full", "empty", "zeros_like", "ones_like", "full_like", "empty_like", "from_array", "asarray", "random.random",
+                    "random.normal", "random.standard_normal", "random.uniform"}
+_CHUNK_CTL = '''
+def _ctl_bad(z):
+    n = da.arange(len(z))
+    return pb.fft.fft(z.data * n[:, None], axis=0)
+
+
+def _ctl_good(z):
+    n = da.arange(len(z), chunks=(-1,))
+    return pb.fft.fft(z.data * n[:, None], axis=0)
+'''
+
+
+def _single_chunk(v, axis):
+    """Does the chunks= value keep `axis` (None: every axis) in one chunk?  True / False / None (cannot tell)."""
+    def one(e):
+        if isinstance(e, ast.UnaryOp) and isinstance(e.op, ast.USub) and isinstance(e.operand, ast.Constant) and e.operand.value == 1:
+            return True
+        if isinstance(e, ast.Constant):
+            if e.value is None:
+                return True
+            if e.value == "auto" or isinstance(e.value, (int, float, str)):
+                return False
+        if isinstance(e, ast.Call) and isinstance(e.func, ast.Name) and e.func.id == "len":
+            return True           # chunks=len(z): the whole axis
+        if isinstance(e, ast.Subscript) and isinstance(e.value, ast.Attribute) and e.value.attr == "shape":
+            return True
+        return None
+    if isinstance(v, (ast.Tuple, ast.List)):
+        if axis is None:
+            rs = [one(e) for e in v.elts]
+            return False if False in rs else (None if None in rs else True)
+        if -len(v.elts) <= axis < len(v.elts):
+            return one(v.elts[axis])
+        return None
+    return one(v)
+
+
+def _chunk_findings(fn_node):
+    """In one function: dask creation calls when the function also runs an FFT of pulsarbat.fft -> [(call, verdict, why)]."""
+    ffts = [c for c in ast.walk(fn_node) if isinstance(c, ast.Call) and ".fft." in "." + norm(c.func) and norm(c.func).split(".")[0] in ("pb", "pulsarbat", "fft")]
+    if not ffts:
+        return [], 0
+    axes = set()
+    for c in ffts:
+        for k in c.keywords:
+            if k.arg in ("axis", "axes"):
+                for e in ast.walk(k.value):
+                    if isinstance(e, ast.Constant) and isinstance(e.value, int):
+                        axes.add(e.value)
+                    elif isinstance(e, ast.UnaryOp) and isinstance(e.operand, ast.Constant):
+                        axes.add(-e.operand.value)
+    axis = next(iter(axes)) if len(axes) == 1 else None
+    parents = {}
+    for p_ in ast.walk(fn_node):
+        for c_ in ast.iter_child_nodes(p_):
+            parents[id(c_)] = p_
+    out = []
+    for c in ast.walk(fn_node):
+        if not (isinstance(c, ast.Call) and norm(c.func).startswith(("da.", "dask.array."))):
+            continue
+        name = norm(c.func).split(".", 1)[1] if norm(c.func).startswith("da.") else norm(c.func)[len("dask.array."):]
+        if name not in DASK_CREATORS_1D | DASK_CREATORS_ND:
+            continue
+        par = parents.get(id(c))
+        if isinstance(par, ast.Attribute) and par.attr == "rechunk":
+            gp = parents.get(id(par))
+            if isinstance(gp, ast.Call) and gp.args:
+                r = _single_chunk(gp.args[0], None if name in DASK_CREATORS_1D else axis)
+                out.append((c, r, "rechunked straight away"))
+                continue
+        ch = [k.value for k in c.keywords if k.arg == "chunks"]
+        if not ch:
+            out.append((c, False, "no chunks= given: Dask picks the chunk size, so a long time axis is split"))
+            continue
+        r = _single_chunk(ch[0], 0 if name in DASK_CREATORS_1D else axis)
+        out.append((c, r, f"chunks={norm(ch[0])}"))
+    return out, len(ffts)
+
+
+def fft_chunk_discipline(ck, prog, rule):
+    """An FFT along an axis is refused by Dask unless that axis is a single chunk.  Operands the package itself creates as Dask
+    arrays inside an FFT-based transform must therefore be created in one chunk along the transformed axis; otherwise the
+    product with the signal's data is split along time as soon as the signal is longer than Dask's automatic chunk size and the
+    Dask-backed call fails where the NumPy-backed call works."""
+    ctl = ast.parse(_CHUNK_CTL)
+    rb, _ = _chunk_findings(ctl.body[0])
+    rg, _ = _chunk_findings(ctl.body[1])
+    ok_ctl = len(rb) == 1 and rb[0][1] is False and len(rg) == 1 and rg[0][1] is True
+    ck.run.ob(rule, "(embedded example)", "control: da.arange(len(z)) / da.arange(len(z), chunks=(-1,)) feeding pb.fft.fft(axis=0)",
+              "the chunk rule fires on the first and accepts the second", True if ok_ctl else None)
+    n_sites = n_fft_funcs = 0
+    for f in prog.all_functions:
+        if f.module not in SCOPE or f.kind in ("nested", "lambda"):
+            continue
+        found, nfft = _chunk_findings(f.node)
+        n_fft_funcs += 1 if nfft else 0
+        for c, verdict, why in found:
+            n_sites += 1
+            ck.run.touched(f)
+            if verdict is None:
+                ck.unk(rule, f.where, norm(c)[:100], "the array is created in one chunk along the axis the FFT runs over", why)
+            else:
+                ck.same(rule, f.where, norm(c)[:100], "a Dask array created inside an FFT-based transform is one chunk along the transformed axis "
+                        "(Dask refuses an FFT over a chunked axis; automatic chunking splits long signals)", verdict, found=why, nontrivial=True)
+    ck.run.floor(rule, "functions running a pulsarbat.fft transform examined for Dask creation calls", n_fft_funcs, 4)
+    ck.run.floor(rule, "Dask creation calls inside FFT-based transforms", n_sites, 1)
 
 
 def r1(ck, prog, run):
     funcs = [f for f in prog.all_functions if f.module in SCOPE and f.kind not in ("nested", "lambda")]
-    an = LazyAnalysis(prog, funcs, sanction=sanction)
+    # the array handed to a signal constructor may be lazy: the first parameter of every __init__ of the Signal hierarchy
+    lazy_params = {}
+    for f in funcs:
+        if f.name == "__init__" and f.cls is not None and any(c.name == "Signal" for c in f.cls.mro()):
+            a = f.node.args.posonlyargs + f.node.args.args
+            if len(a) > 1:
+                lazy_params[f.qualname] = [a[1].arg]
+    an = LazyAnalysis(prog, funcs, sanction=sanction, lazy_params=lazy_params)
     forces = an.run()
+    run.floor("R1", "signal constructors whose data parameter is treated as possibly lazy", len(lazy_params), 4)
     for f in funcs:
         run.touched(f)
     by = {}
